@@ -20,12 +20,12 @@ import (
 func init() { translators["IntTypes"] = x2IntTypes }
 
 type intFacts struct {
-	name, family       string
-	nameWidth, kind    int
-	writeFn, readFn    string
-	writeW, readW      int
-	fixed, json        int // -1 = absent
-	order              int
+	name, family    string
+	nameWidth, kind int
+	writeFn, readFn string
+	writeW, readW   int
+	fixed, json     int // -1 = absent
+	order           int
 }
 
 var intNameRe = regexp.MustCompile(`^(Uint|Int|VarUInteger|Bits)(\d+)$`)
